@@ -119,6 +119,16 @@ Theorem C13_source_untouched : forall st garm A gid_of L,
 Proof. exact store_level. Qed.
 Print Assumptions C13_source_untouched.
 
+(* the freshness hypothesis cannot be dropped: with delegation_guids naming the source's own graph id the
+   source is overwritten (replayed on the implementation by the harness; reported as a known finding with a
+   proposed guard, proposed_fixes/C13-1.patch) *)
+Theorem C13_source_untouched_needs_fresh_ids_refuted :
+  exists st garm A gid_of st' dgs,
+    sget st garm = Some A /\ wfb A = true /\ In garm (map gid_of (c_ids (catalog_delegations A))) /\
+    st_generate_adms st garm gid_of = Ok (st', dgs) /\ sget st' garm <> Some A.
+Proof. exact source_untouched_needs_fresh_ids_refuted. Qed.
+Print Assumptions C13_source_untouched_needs_fresh_ids_refuted.
+
 (* re-keying a partition's delegations to a graph id succeeds and changes only the key *)
 Theorem C13_rekey_only_key : forall A L d P, wfb A = true -> generate_adms A = Ok L -> In (d, P) L ->
   forall gid, rewrite_delegations P gid = (mkGraph (map (rekeyed gid) (gnodes P)) (gedges P), None).
